@@ -1,4 +1,5 @@
 import StepModel.GenDeterm
+import StepModel.GenPyModule
 /-! Line-protocol driver for the C12 model.
 
   rule                                              -> R legacy | R literalOnly        (rule regenerated from the tree)
@@ -7,6 +8,8 @@ import StepModel.GenDeterm
         AMBIENT: under the current rule the line depends on an address (no prediction possible)
   order <key> <key> …                               -> O <keys in DICTdo order>
   section <name> …                                  -> A <names in the order exppp prints one section (types, entities, …) of a scope>
+  pymodule o:<key> | f:<key> | r:<key> | t:<key>:<s|e|l|a>:<head|-> | e:<key>:<super,…|-> …  (the schema's symbol table in definition order)
+                                                    -> M <names in the order exp2python defines them at module level> | M none
   refout <key>:<supplier>:<hex text> …              -> G <supplier>: item, item | <supplier>: …   (exppp's USE/REFERENCE groups)
 -/
 open StepModel.GenDeterm StepModel.Generated.GenBound StepModel
@@ -64,7 +67,29 @@ def handle (line : String) : String :=
     "A " ++ " ".intercalate (sectionOrder Generated.RefOut.alphabetizeDefault amb0 0 names)
   | "order" :: keys => "O " ++ " ".intercalate ((ExpressHash.dictOrder (keys.map fun k => (k, ()))).map (·.1))
   | [] => ""
-  | _ => "bad-op"
+  | cmd :: decls =>
+    -- `^name` = the original is a type of ANOTHER schema: already written when that schema was printed before this one
+    -- (`pymodule`: treated as no original to wait for), still unwritten otherwise (`pymodule-late`: waits in vain, written by the second loop)
+    if cmd != "pymodule" && cmd != "pymodule-late" then "bad-op" else
+    let late := cmd == "pymodule-late"
+    let parsed := decls.map fun d => (d.splitOn ":")
+    let keyed : List (String × List String) := parsed.filterMap fun p => match p with
+      | _ :: k :: _ => some (k, p)
+      | _ => none
+    let ordered := (ExpressHash.dictOrder keyed).map (·.2)
+    let types : List PyModule.T := ordered.filterMap fun p => match p with
+      | ["t", k, kind, h] => some { name := k, head := if h == "-" || (h.startsWith "^" && !late) then none else some h,
+                                    kind := if kind == "e" then .enum else if kind == "l" then .select else if kind == "a" then .aggregate else .simple }
+      | _ => none
+    let ents : List GenPy.Entity := ordered.filterMap fun p => match p with
+      | ["e", k, sup] => some { name := k, supers := if sup == "-" then [] else (sup.splitOn ",").filter (· ≠ ""), attrs := [] }
+      | _ => none
+    let named (c : String) : List String := ordered.filterMap fun p => match p with
+      | [c', k] => if c' == c then some k else none
+      | _ => none
+    match PyModule.order types ents (ents.map (·.name)) (ents.length + 2) (named "f") (named "r") with
+    | some l => "M " ++ " ".intercalate l
+    | none => "M none"
 
 partial def loop (h : IO.FS.Stream) (out : IO.FS.Stream) : IO Unit := do
   let line ← h.getLine
